@@ -19,7 +19,15 @@ from typing import Any
 
 import yaml
 
-from octave_mcp.core.ast_nodes import Assignment, Block, Document, InlineMap, ListValue, LiteralZoneValue
+from octave_mcp.core.ast_nodes import (
+    Assignment,
+    Block,
+    Document,
+    HolographicValue,
+    InlineMap,
+    ListValue,
+    LiteralZoneValue,
+)
 from octave_mcp.core.gbnf_compiler import GBNFCompiler, compile_gbnf_from_meta
 from octave_mcp.core.parser import parse
 from octave_mcp.core.projector import project
@@ -72,6 +80,9 @@ def _convert_value(value: Any) -> Any:
             "info_tag": value.info_tag,
             "fence_marker": value.fence_marker,
         }
+    elif isinstance(value, HolographicValue):
+        # A holographic pattern has no JSON/YAML counterpart: export its source text (I3: no repr leak)
+        return value.raw_pattern
     elif isinstance(value, ListValue):
         return [_convert_value(item) for item in value.items]
     elif isinstance(value, InlineMap):
@@ -123,6 +134,8 @@ def _format_markdown_value(value: Any) -> str:
         if content and not content.endswith("\n"):
             content = content + "\n"
         return f"{value.fence_marker}{tag}\n{content}{value.fence_marker}"
+    elif isinstance(value, HolographicValue):
+        return value.raw_pattern
     elif isinstance(value, ListValue):
         # Format list items, recursively formatting nested values
         items = [_format_markdown_value(item) for item in value.items]
